@@ -114,8 +114,10 @@ def check_property(prop, cfg, tier="quick", seed=0):
     t0 = time.time()
     work = tempfile.mkdtemp(prefix="vx_%s_" % prop)
     ev_path = os.path.join(VERIF, "evidence", prop + ".json")
+    if os.environ.get("VERIF_SELFTEST"):
+        ev_path = os.path.join(tempfile.gettempdir(), "vx_selftest_evidence_%s.json" % prop)
     os.makedirs(os.path.dirname(ev_path), exist_ok=True)
-    replay_dir = os.path.join(VERIF, "replays", prop)
+    replay_dir = os.path.join(VERIF, "replays", prop) if not os.environ.get("VERIF_SELFTEST") else os.path.join(tempfile.gettempdir(), "vx_selftest_replays", prop)
     shutil.rmtree(replay_dir, ignore_errors=True)
     known, fixed = load_known()
     violations, knowns, tool_errors, undecided = [], [], [], []
